@@ -1,38 +1,52 @@
 (* Proofs/C09b.v — C09 for the recursive part of the grammar: filters, logical
-   groups (top-level and nested) and path / group arguments.
+   groups (top-level and nested) and path / group arguments of functions.
 
    Parts: C09b1.v (lexeme lists and the lexer), C09b2.v ([render], [canon], the
    two layouts, their texts and well-formedness), C09b3.v (the parser on the
-   tokens of a canonical operation).  This file states the results.
+   tokens of a canonical operation), C09b4.v (the weak class [wcanon], the
+   normaliser [fixup], boolean deciders).  This file states the results.
+   Compile in that order, this file last.
 
-   render a   the white-space-free concrete syntax of the operation a: keys
-              separated by `.`, a filter `[KW,x1,...,xn]`, a group
-              `{KW,x1,...,xn}` with KW = AND | OR always written and followed
-              by a comma, a call `Name(a1,...,an)`; no comma after the last
-              operand / argument.  Example:
+   render a   the white-space-free concrete syntax of the operation a: a path
+              `$` or `@` followed by its elements: `.key` / `.key?`, a call
+              `.Name(a1,...,an)`, a filter `[KW,x1,...,xn]`; a group
+              `{KW,x1,...,xn}`; KW = AND | OR followed by a comma; one comma
+              between operands / arguments, none after the last.  The parser
+              also accepts an AND group without keyword and keeps the spelling
+              in the userString; accordingly an AND group whose stored
+              userString is `{x1,...,xn}` / `[x1,...,xn]` is rendered so.
+                $.a.b?[@.x.Equal(1),{OR,@.y,$.z}].Sum($.n,2)
                 $.a.b?[AND,@.x.Equal(1),{OR,@.y,$.z}].Sum($.n,2)
-   canon uni a  the canonical class: keys the lexer reads back ([good_key]);
-              known function names; literal arguments as in C09's [frag_op];
-              path arguments (is_filter = must_end = false) and group arguments
-              (is_filter = false), recursively canonical; filters = groups with
-              is_filter = true whose path operands carry is_filter = must_end =
-              true and start with `@`; nested groups have is_filter = false;
-              group type AND or OR; the [invalid] flags as the parser computes
-              them; and every stored userString equal to [render] of its node.
+   canon uni a  keys the lexer reads back ([good_key]); known function names;
+              literal arguments as in C09's [frag_op]; path arguments (is_filter
+              = must_end = false) and group arguments (is_filter = false),
+              recursively canonical; filters = groups with is_filter = true
+              whose path operands have is_filter = must_end = true and start
+              with `@`; nested groups have is_filter = false; group type AND or
+              OR; [invalid] flags as the parser computes them; and every stored
+              userString equal to [render] of its own node.
+   kws a      the groups / filters that Sprint prints structurally (those not
+              inside function arguments) have the keyword in their userString.
+   wcanon uni a  like canon, but userStrings, invalid and must_end flags of the
+              nodes that Sprint prints structurally are arbitrary; only path /
+              group ARGUMENTS (which Sprint prints by userString) are canonical.
+   fixup a    a with those userStrings and flags recomputed (keyword spelled).
 
-   Results (all for every [uni]):
+   Results, for every classifier [uni]:
      C09b_render_parses_exact   canon a -> parse (render a) = Ok a
-     C09b_sprint_parses_exact   canon a -> parse (Sprint a) = Ok a
-   i.e. on canonical operations parse o render and parse o Sprint are the
-   identity (Leibniz equality: userStrings and flags included); from these
-     C09b_render_parses, C09b_sprint_reparses, C09b_parse_is_canon,
-     C09b_end_to_end (the full C09 statement for every query text in the image
-     of render on canonical operations).
-
-   No axioms: Print Assumptions at the end. *)
+     C09b_sprint_parses_exact   canon a -> kws a -> parse (Sprint a) = Ok a
+     C09b_sprint_reparses_weak  wcanon a -> parse (Sprint a) = Ok (fixup a), which
+                                is structurally equal to a, prints like a, is
+                                canonical and a fixed point of parse o Sprint
+     C09b_render_parses, C09b_sprint_reparses   the requested existential forms
+     C09b_parse_is_canon, C09b_end_to_end       the strict grammar (image of render
+                                on canonical operations): full C09 statement
+     C09b_end_to_end_weak       the same for every weakly canonical operation
+   (equalities are Leibniz equalities of operation trees: userStrings and flags
+   included).  No axioms: Print Assumptions at the end. *)
 From Mpath.Model Require Import Base Dec Types GoVal Ast Lexer Parser Printer Funcs Eval.
 From Mpath.Generated Require Import FuncTable Escapes Runes.
-From Mpath.Proofs Require Import C09 C09b1 C09b2 C09b3.
+From Mpath.Proofs Require Import C09 C09b1 C09b2 C09b3 C09b4.
 
 Local Open Scope Z_scope.
 
@@ -67,15 +81,50 @@ Proof.
   split; [apply C09_struct_eq_refl|exact (canon_top_us uni a H)].
 Qed.
 
-(** 3. What Sprint prints for a canonical operation parses to that operation. *)
-Theorem C09b_sprint_parses_exact : forall uni a, canon uni a -> parse_string uni (sprint_top a) = Ok a.
-Proof. intros uni a H. rewrite (sprint_items uni a H). exact (C09b_layout_parses uni true a H). Qed.
+(** 3. What Sprint prints.
+    (a) exact: for a canonical operation whose structurally printed groups
+        carry the keyword in their userString ([kws]), Sprint's text parses to
+        the operation itself;
+    (b) weak class: for a weakly canonical operation (arbitrary userStrings and
+        flags on the nodes Sprint prints structurally; canonical path / group
+        arguments), Sprint's text parses to [fixup a]: structurally equal,
+        prints identically, canonical, and a fixed point of parse o Sprint;
+    (c) the requested statement for canonical operations. *)
+Theorem C09b_sprint_parses_exact : forall uni a, canon uni a -> kws a ->
+  parse_string uni (sprint_top a) = Ok a.
+Proof. intros uni a H Hk. rewrite (sprint_items uni a H Hk). exact (C09b_layout_parses uni true a H). Qed.
+
+Theorem C09b_sprint_reparses_weak : forall uni a, wcanon uni a ->
+  (dp_top a <= S (length (top_us a)))%nat ->
+  parse_string uni (sprint_top a) = Ok (fixup a) /\
+  struct_eq a (fixup a) /\
+  sprint_top (fixup a) = sprint_top a /\
+  canon uni (fixup a) /\ kws (fixup a) /\
+  parse_string uni (sprint_top (fixup a)) = Ok (fixup a).
+Proof.
+  intros uni a Hw Hd.
+  destruct (fixup_canon uni a Hw) as (Hc & Hk).
+  destruct (sprint_top_fixup uni a Hw Hd) as (E1 & E2).
+  split; [rewrite E1; exact (C09b_layout_parses uni true (fixup a) Hc)|].
+  split; [apply fixup_struct_eq|]. split; [exact E2|]. split; [exact Hc|]. split; [exact Hk|].
+  exact (C09b_sprint_parses_exact uni (fixup a) Hc Hk).
+Qed.
+
+Lemma c9b_canon_depth : forall uni a, canon uni a -> (dp_top a <= S (length (top_us a)))%nat.
+Proof.
+  intros uni a H. rewrite (canon_top_us uni a H).
+  destruct a as [p|l]; cbn [dp_top render].
+  - pose proof (proj1 depth_E p). lia.
+  - pose proof (proj2 (proj2 depth_E) l). lia.
+Qed.
 
 Theorem C09b_sprint_reparses : forall uni a, canon uni a ->
   exists a', parse_string uni (sprint_top a) = Ok a' /\ struct_eq a a' /\ sprint_top a' = sprint_top a.
 Proof.
-  intros uni a H. exists a. split; [exact (C09b_sprint_parses_exact uni a H)|].
-  split; [apply C09_struct_eq_refl|reflexivity].
+  intros uni a H.
+  destruct (C09b_sprint_reparses_weak uni a (canon_wcanon uni a H) (c9b_canon_depth uni a H))
+    as (H1 & H2 & H3 & _).
+  exists (fixup a). split; [exact H1|]. split; [exact H2|exact H3].
 Qed.
 
 (** 4. The strict concrete grammar = the image of [render] on canonical
@@ -89,32 +138,290 @@ Proof.
   rewrite (C09b_render_parses_exact uni a0 H0) in Hp. injection Hp as <-. split; [exact H0|reflexivity].
 Qed.
 
-(** The full C09 statement for strict queries. *)
+(** a decidable sufficient criterion (by C09b_parse_is_canon the operation to
+    try is the one the text parses to) *)
+Theorem C09b_strict_decide : forall uni s t,
+  canon_b uni t && str_eqb (render t) s = true -> strict_query uni s.
+Proof.
+  intros uni s t H. apply andb_true_iff in H. destruct H as [H1 H2].
+  exists t. split; [apply canon_b_sound; exact H1|]. symmetry. apply str_eqb_eq. exact H2.
+Qed.
+
+Theorem C09b_strict_parses : forall uni s, strict_query uni s -> exists t, parse_string uni s = Ok t.
+Proof. intros uni s (a0 & H0 & ->). exists a0. exact (C09b_render_parses_exact uni a0 H0). Qed.
+
+(** The full C09 statement for strict queries: the operation t parsed from s
+    has UserString s; Sprint t parses to an operation that is structurally
+    equal, prints identically (and is itself a fixed point of parse o Sprint)
+    and evaluates to the same result on every data value. *)
 Theorem C09b_end_to_end : forall uni eng s t data,
   strict_query uni s -> parse_string uni s = Ok t ->
   top_us t = s /\
   exists t', parse_string uni (sprint_top t) = Ok t' /\
              struct_eq t t' /\
              sprint_top t' = sprint_top t /\
+             parse_string uni (sprint_top t') = Ok t' /\
              do_top uni eng t' data = do_top uni eng t data.
 Proof.
   intros uni eng s t data Hs Hp.
   destruct (C09b_parse_is_canon uni s t Hs Hp) as (Hc & Hr).
   split; [rewrite <- Hr; exact (canon_top_us uni t Hc)|].
-  destruct (C09b_sprint_reparses uni t Hc) as (t' & H1 & H2 & H3).
-  exists t'. split; [exact H1|]. split; [exact H2|]. split; [exact H3|].
+  destruct (C09b_sprint_reparses_weak uni t (canon_wcanon uni t Hc) (c9b_canon_depth uni t Hc))
+    as (H1 & H2 & H3 & _ & _ & H6).
+  exists (fixup t). split; [exact H1|]. split; [exact H2|]. split; [exact H3|]. split; [exact H6|].
   symmetry. apply C09_same_result_top. exact H2.
 Qed.
 
-(** Strict queries do parse. *)
-Theorem C09b_strict_parses : forall uni s, strict_query uni s -> exists t, parse_string uni s = Ok t.
-Proof. intros uni s (a0 & H0 & ->). exists a0. exact (C09b_render_parses_exact uni a0 H0). Qed.
+(** The same conclusion (without the UserString clause) for every operation
+    of the weak class, however its text was written. *)
+Theorem C09b_end_to_end_weak : forall uni eng t data,
+  wcanon uni t -> (dp_top t <= S (length (top_us t)))%nat ->
+  exists t', parse_string uni (sprint_top t) = Ok t' /\
+             struct_eq t t' /\
+             sprint_top t' = sprint_top t /\
+             parse_string uni (sprint_top t') = Ok t' /\
+             do_top uni eng t' data = do_top uni eng t data.
+Proof.
+  intros uni eng t data Hw Hd.
+  destruct (C09b_sprint_reparses_weak uni t Hw Hd) as (H1 & H2 & H3 & _ & _ & H6).
+  exists (fixup t). split; [exact H1|]. split; [exact H2|]. split; [exact H3|]. split; [exact H6|].
+  symmetry. apply C09_same_result_top. exact H2.
+Qed.
+
+(* ================================================================== *)
+(** * 5. Examples                                                       *)
+(* ================================================================== *)
+
+Definition c9b_parse (q : string) : top :=
+  match parse_string uni_ascii (bs q) with Ok t => t | _ => TopP (Path false true false false [] []) end.
+
+(** the example of the task statement: a filter without keyword, a nested OR
+    group, a `?` mark, a call with a path argument *)
+Definition c9b_q1 : string := "$.a.b?[@.x.Equal(1),{OR,@.y,$.z}].Sum($.n,2)".
+(** nested filter inside a path argument, group argument, Select with a string
+    argument, `?` marks, a negative fraction *)
+Definition c9b_q2 : string :=
+  "$.items[AND,@.price?.Greater(10.5),@.tags.Select(""name"").AnyOf(""a"",""b"")].Sum($.base[@.k?.Equal($.ref.First())].n,{OR,$.p.Less(-0.25),$.q.IsNull()},true)".
+(** a top-level group with a nested group and filters inside operands *)
+Definition c9b_q3 : string :=
+  "{OR,$.a.Equal(""x y""),{AND,$.b[@.c.Greater(1)].Count().Greater(0),$.d?.IsNotNull()}}".
+
+Example C09b_ex_strict :
+  forallb (fun q => match parse_string uni_ascii (bs q) with
+                    | Ok t => canon_b uni_ascii t && str_eqb (render t) (bs q)
+                    | _ => false
+                    end) [c9b_q1; c9b_q2; c9b_q3] = true.
+Proof. vm_compute. reflexivity. Qed.
+
+Lemma c9b_strict_of_b : forall q t,
+  parse_string uni_ascii (bs q) = Ok t -> canon_b uni_ascii t && str_eqb (render t) (bs q) = true ->
+  strict_query uni_ascii (bs q).
+Proof. intros q t _ H. exact (C09b_strict_decide uni_ascii (bs q) t H). Qed.
+
+(** the theorem applied to q1: everything C09 asks for *)
+Example C09b_ex1 : forall eng data,
+  let t := c9b_parse c9b_q1 in
+  parse_string uni_ascii (bs c9b_q1) = Ok t /\
+  top_us t = bs c9b_q1 /\
+  exists t', parse_string uni_ascii (sprint_top t) = Ok t' /\ struct_eq t t' /\
+             sprint_top t' = sprint_top t /\ parse_string uni_ascii (sprint_top t') = Ok t' /\
+             do_top uni_ascii eng t' data = do_top uni_ascii eng t data.
+Proof.
+  intros eng data t.
+  assert (Hp : parse_string uni_ascii (bs c9b_q1) = Ok t) by (vm_compute; reflexivity).
+  split; [exact Hp|].
+  apply (C09b_end_to_end uni_ascii eng (bs c9b_q1) t data); [|exact Hp].
+  apply (c9b_strict_of_b c9b_q1 t Hp). vm_compute. reflexivity.
+Qed.
+
+(** what Sprint prints for q1, and the operation it parses to: the keyword AND
+    now appears in the userStrings *)
+Example C09b_ex1_text :
+  sprint_top (c9b_parse c9b_q1)
+  = bs "$.a.b?[" ++ nl ++ bs "	AND," ++ nl ++ bs "	@.x.Equal(1)," ++ nl ++ bs "	{" ++ nl ++ bs "		OR," ++ nl ++
+    bs "		@.y," ++ nl ++ bs "		$.z" ++ nl ++ bs "	}" ++ nl ++ bs "].Sum($.n,2)" /\
+  (exists t', parse_string uni_ascii (sprint_top (c9b_parse c9b_q1)) = Ok t' /\
+              top_us t' = bs "$.a.b?[AND,@.x.Equal(1),{OR,@.y,$.z}].Sum($.n,2)" /\
+              t' = fixup (c9b_parse c9b_q1)).
+Proof. split; [vm_compute; reflexivity|]. eexists. split; [vm_compute; reflexivity|]. split; vm_compute; reflexivity. Qed.
+
+Example C09b_ex2 : forall eng data,
+  let t := c9b_parse c9b_q2 in
+  parse_string uni_ascii (bs c9b_q2) = Ok t /\
+  top_us t = bs c9b_q2 /\
+  exists t', parse_string uni_ascii (sprint_top t) = Ok t' /\ struct_eq t t' /\
+             sprint_top t' = sprint_top t /\ parse_string uni_ascii (sprint_top t') = Ok t' /\
+             do_top uni_ascii eng t' data = do_top uni_ascii eng t data.
+Proof.
+  intros eng data t.
+  assert (Hp : parse_string uni_ascii (bs c9b_q2) = Ok t) by (vm_compute; reflexivity).
+  split; [exact Hp|].
+  apply (C09b_end_to_end uni_ascii eng (bs c9b_q2) t data); [|exact Hp].
+  apply (c9b_strict_of_b c9b_q2 t Hp). vm_compute. reflexivity.
+Qed.
+
+(** q2 spells every keyword: parse o Sprint is the identity on its operation *)
+Example C09b_ex2_exact :
+  let t := c9b_parse c9b_q2 in
+  canon_b uni_ascii t = true /\ kws_b t = true /\ parse_string uni_ascii (sprint_top t) = Ok t.
+Proof.
+  cbv zeta.
+  assert (H1 : canon_b uni_ascii (c9b_parse c9b_q2) = true) by (vm_compute; reflexivity).
+  assert (H2 : kws_b (c9b_parse c9b_q2) = true) by (vm_compute; reflexivity).
+  split; [exact H1|]. split; [exact H2|].
+  apply C09b_sprint_parses_exact; [apply canon_b_sound; exact H1|apply kws_b_sound; exact H2].
+Qed.
+
+Example C09b_ex3 : forall eng data,
+  let t := c9b_parse c9b_q3 in
+  parse_string uni_ascii (bs c9b_q3) = Ok t /\
+  top_us t = bs c9b_q3 /\
+  exists t', parse_string uni_ascii (sprint_top t) = Ok t' /\ struct_eq t t' /\
+             sprint_top t' = sprint_top t /\ parse_string uni_ascii (sprint_top t') = Ok t' /\
+             do_top uni_ascii eng t' data = do_top uni_ascii eng t data.
+Proof.
+  intros eng data t.
+  assert (Hp : parse_string uni_ascii (bs c9b_q3) = Ok t) by (vm_compute; reflexivity).
+  split; [exact Hp|].
+  apply (C09b_end_to_end uni_ascii eng (bs c9b_q3) t data); [|exact Hp].
+  apply (c9b_strict_of_b c9b_q3 t Hp). vm_compute. reflexivity.
+Qed.
+
+(** A query written loosely — white space, comments, no keyword, a blank
+    between the literal arguments: not a strict query, its operation is not
+    canonical, but it is weakly canonical, and the weak theorem applies. *)
+Definition c9b_q4 : string :=
+  "$.items[ @.price.Greater(10), @.tags.Select(""name"").AnyOf(""a"" ""b"") ] /* all */ .Count()".
+
+Example C09b_ex4 : forall eng data,
+  let t := c9b_parse c9b_q4 in
+  parse_string uni_ascii (bs c9b_q4) = Ok t /\
+  canon_b uni_ascii t = false /\
+  top_us t = bs "$.items[@.price.Greater(10),@.tags.Select(""name"").AnyOf(""a""""b"")].Count()" /\
+  exists t', parse_string uni_ascii (sprint_top t) = Ok t' /\ struct_eq t t' /\
+             sprint_top t' = sprint_top t /\ parse_string uni_ascii (sprint_top t') = Ok t' /\
+             do_top uni_ascii eng t' data = do_top uni_ascii eng t data.
+Proof.
+  intros eng data t.
+  split; [vm_compute; reflexivity|]. split; [vm_compute; reflexivity|]. split; [vm_compute; reflexivity|].
+  apply C09b_end_to_end_weak.
+  - apply wcanon_b_sound. vm_compute. reflexivity.
+  - vm_compute. lia.
+Qed.
+
+(* ================================================================== *)
+(** * Where the classes end                                             *)
+(* ================================================================== *)
+
+(** (i) [kws] is needed for the exact statement: a canonical operation whose
+    filter was written without keyword comes back with another userString
+    (Sprint prints `AND,`), structurally equal. *)
+Example C09b_exact_needs_kws_refuted :
+  let t := c9b_parse "$.a[@.x]" in
+  canon_b uni_ascii t = true /\ kws_b t = false /\
+  parse_string uni_ascii (sprint_top t) = Ok (fixup t) /\
+  top_us t = bs "$.a[@.x]" /\ top_us (fixup t) = bs "$.a[AND,@.x]" /\
+  parse_string uni_ascii (sprint_top t) <> Ok t.
+Proof.
+  cbv zeta. repeat split; try (vm_compute; reflexivity).
+  intros H. assert (H' : parse_string uni_ascii (sprint_top (c9b_parse "$.a[@.x]")) = Ok (fixup (c9b_parse "$.a[@.x]")))
+    by (vm_compute; reflexivity).
+  rewrite H' in H. vm_compute in H. discriminate H.
+Qed.
+
+(** (ii) The weak class excludes exactly the situations of C09's findings: a
+    path argument written with white space between two keys has a userString
+    that is not the rendering of the argument. *)
+Example C09b_weak_class_excludes_glued_argument :
+  let t := c9b_parse "$.x.Equal($.a b)" in
+  wcanon_b uni_ascii t = false /\
+  (exists t', parse_string uni_ascii (sprint_top t) = Ok t' /\ ~ struct_eq t t').
+Proof.
+  cbv zeta. split; [vm_compute; reflexivity|].
+  destruct C09_nested_path_argument_refuted as (t0 & t0' & H1 & _ & H3 & _ & _ & _ & H7).
+  assert (E : c9b_parse "$.x.Equal($.a b)" = t0).
+  { unfold c9b_parse. change (bs "$.x.Equal($.a b)") with (bs "$.x.Equal($.a b)"). rewrite H1. reflexivity. }
+  rewrite E. exists t0'. split; assumption.
+Qed.
+
+(** (iii) Spellings of arguments that are not canonical but harmless: the
+    keyword-less group / filter inside an argument IS covered (render keeps the
+    spelling); a character literal, a non-normal number or a trailing comma in
+    a nested argument are outside [wcanon] although they survive (checked by
+    computation: the classes are sufficient, not necessary). *)
+Example C09b_argument_spellings :
+  map (fun q => (wcanon_b uni_ascii (c9b_parse q),
+                 match parse_string uni_ascii (sprint_top (c9b_parse q)) with
+                 | Ok t' => str_eqb (sprint_top t') (sprint_top (c9b_parse q))
+                 | _ => false
+                 end))
+      ["$.x.Equal($.l[@.k.Equal(1)].First())"; "$.x.AnyOf({$.a,$.b})";
+       "$.x.Equal($.y.Equal('a'))"; "$.x.Equal($.y.Add(1.0))"; "$.a.Equal({AND,$.b,})"]%string
+  = [(true, true); (true, true); (false, true); (false, true); (false, true)].
+Proof. vm_compute. reflexivity. Qed.
+
+(** (iv) Outside the premise of C09 (AND / OR keywords only): a misspelt
+    keyword parses (flagged invalid), Sprint prints no keyword, and the text
+    parses to an AND group. *)
+Example C09b_bad_keyword_refuted :
+  exists t t', parse_string uni_ascii (bs "{XOR,$.a}") = Ok t /\
+               sprint_top t = bs "{" ++ nl ++ bs "	" ++ nl ++ bs "	$.a" ++ nl ++ bs "}" /\
+               parse_string uni_ascii (sprint_top t) = Ok t' /\
+               wcanon_b uni_ascii t = false /\ ~ struct_eq t t'.
+Proof.
+  eexists. eexists. split; [vm_compute; reflexivity|]. split; [vm_compute; reflexivity|].
+  split; [vm_compute; reflexivity|]. split; [vm_compute; reflexivity|].
+  intros H. inversion H as [|l l' Hl]; subst. inversion Hl.
+Qed.
+
+(** (v) Hand-built operations the parser never produces: a filter whose group
+    is not marked is_filter prints with braces, and `$.a{...}` does not parse. *)
+Example C09b_filter_flag_needed_refuted :
+  let t := TopP (Path false true false false
+                   [PIdent (bs "a") false (bs "a"); PFilter (LogOp false false LAnd [] (bs "{AND,}")) (bs "{AND,}")]
+                   (bs "$.a{AND,}")) in
+  wcanon_b uni_ascii t = false /\
+  sprint_top t = bs "$.a{" ++ nl ++ bs "	AND," ++ nl ++ bs "}" /\
+  parse_string uni_ascii (sprint_top t) = Err (EOther "parse error").
+Proof. cbv zeta. repeat split; vm_compute; reflexivity. Qed.
+
+(** (vi) Observation (lenient parser, same class as the known finding on
+    argument lists): a group or filter may be closed by either bracket.  The
+    operation is weakly canonical — Sprint prints the right bracket and the
+    round trip holds — but its userString keeps the bracket as written, so it
+    is not canonical, and inside an argument the wrong bracket is printed
+    again (and parses again). *)
+Example C09b_mismatched_bracket_accepted :
+  let t := c9b_parse "$.a[AND,@.x}" in
+  parse_string uni_ascii (bs "$.a[AND,@.x}") = Ok t /\
+  top_us t = bs "$.a[AND,@.x}" /\
+  canon_b uni_ascii t = false /\ wcanon_b uni_ascii t = true /\
+  parse_string uni_ascii (sprint_top t) = Ok (fixup t) /\
+  top_us (fixup t) = bs "$.a[AND,@.x]" /\
+  sprint_top (c9b_parse "$.q.Equal({AND,$.a],1)") = bs "$.q.Equal({AND,$.a],1)".
+Proof. cbv zeta. repeat split; vm_compute; reflexivity. Qed.
 
 Print Assumptions C09b_layout_parses.
 Print Assumptions C09b_render_parses_exact.
 Print Assumptions C09b_render_parses.
 Print Assumptions C09b_sprint_parses_exact.
+Print Assumptions C09b_sprint_reparses_weak.
 Print Assumptions C09b_sprint_reparses.
 Print Assumptions C09b_parse_is_canon.
-Print Assumptions C09b_end_to_end.
 Print Assumptions C09b_strict_parses.
+Print Assumptions C09b_strict_decide.
+Print Assumptions C09b_end_to_end.
+Print Assumptions C09b_end_to_end_weak.
+Print Assumptions C09b_ex_strict.
+Print Assumptions C09b_ex1.
+Print Assumptions C09b_ex1_text.
+Print Assumptions C09b_ex2.
+Print Assumptions C09b_ex2_exact.
+Print Assumptions C09b_ex3.
+Print Assumptions C09b_ex4.
+Print Assumptions C09b_exact_needs_kws_refuted.
+Print Assumptions C09b_weak_class_excludes_glued_argument.
+Print Assumptions C09b_argument_spellings.
+Print Assumptions C09b_bad_keyword_refuted.
+Print Assumptions C09b_filter_flag_needed_refuted.
+Print Assumptions C09b_mismatched_bracket_accepted.
